@@ -1,2 +1,225 @@
-(* placeholder while the proofs are being written *)
-From RV Require Import Tree.Model.
+(* C05 — An exiting actor takes its whole subtree with it; links stay consistent.
+   Only statements (pinned), non-vacuity examples and Print Assumptions.
+   Model: Tree/Model.v (labels = atomic actions of supervision.rs / actor_cell.rs / the guard
+   cleanup in actor.rs; states = total maps aid -> actor).  Proofs: Tree/Proofs.v,
+   Tree/DriverProofs.v.  Every theorem quantifies over ALL label lists, i.e. all interleavings of
+   link/unlink/kill/drain/create and of every actor's start-up and exit steps, for any number of
+   actors and any graph shape.  `rule_fixed` is ActorCell::terminate's rule in the current tree
+   (kill when status < Stopping); theorems stated for an arbitrary rule `r` hold for the historical
+   rule as well. *)
+From Coq Require Import List NArith Bool.
+From RV Require Import Tree.Model Tree.Proofs Tree.DriverProofs.
+Import ListNotations.
+Local Open Scope N_scope.
+
+(* (1) two-sidedness at all times: c names p as supervisor iff p's child set contains c *)
+Theorem C05_two_sided : forall r ls c p,
+  let s := exec r ls init in
+  supervisor (s c) = Some p <-> (exists l, children (s p) = Some l /\ In c l).
+Proof. intros r ls c p s. apply (two_sided_reachable r). exists ls; reflexivity. Qed.
+
+(* hence at most one supervisor, and membership in exactly that supervisor's set *)
+Theorem C05_one_supervisor : forall r ls c p q,
+  let s := exec r ls init in
+  (exists l, children (s p) = Some l /\ In c l) ->
+  (exists l, children (s q) = Some l /\ In c l) -> p = q.
+Proof. intros r ls c p q s. apply (one_supervisor r). exists ls; reflexivity. Qed.
+
+(* (2) a stopped actor has neither supervisor nor children (its set is closed) *)
+Theorem C05_stopped_is_bare : forall r ls a,
+  let s := exec r ls init in
+  st (s a) = Stopped -> supervisor (s a) = None /\ children (s a) = None.
+Proof. intros r ls a s. apply (stopped_is_bare r). exists ls; reflexivity. Qed.
+
+(* (3) no adoption.  The link operation is refused and changes nothing when either side is
+   Draining/Stopping/Stopped or the supervisor's set was taken ... *)
+Theorem C05_no_adoption : forall s c p,
+  4 <= rank (st (s c)) \/ 4 <= rank (st (s p)) \/ children (s p) = None ->
+  do_link s c p = (s, false).
+Proof. exact link_refused. Qed.
+
+(* ... and no step whatsoever gives such an actor a child, or such a child a supervisor;
+   with status monotonicity and permanence of the closed set this is "never again" *)
+Theorem C05_never_gains_children : forall r l s c p,
+  4 <= rank (st (s p)) \/ children (s p) = None ->
+  (exists k, children (step r l s p) = Some k /\ In c k) ->
+  (exists k, children (s p) = Some k /\ In c k).
+Proof. exact no_adoption_parent. Qed.
+
+Theorem C05_never_gains_supervisor : forall r l s c p,
+  4 <= rank (st (s c)) ->
+  supervisor (step r l s c) = Some p -> supervisor (s c) = Some p.
+Proof. exact no_adoption_child. Qed.
+
+Theorem C05_status_monotone : forall r l s a, rank (st (s a)) <= rank (st (step r l s a)).
+Proof. exact rank_mono. Qed.
+
+Theorem C05_closed_is_permanent : forall r l s a,
+  children (s a) = None -> children (step r l s a) = None.
+Proof. exact closed_stays. Qed.
+
+(* after an actor's cleanup has run its terminate(), its own child set is closed *)
+Theorem C05_closed_after_cleanup : forall r ls p,
+  let s := exec r ls init in
+  match apc (s p) with PNotify | PReadSup | PUnlink _ | PPubStopped | PDone => True | _ => False end ->
+  children (s p) = None.
+Proof. intros r ls p s. apply (closed_after_cleanup r). exists ls; reflexivity. Qed.
+
+(* (4) every actor detached by a take_children (ghost mark `doomed c = Some t`: detached by the
+   terminate() that t executes) has been killed (signal pending or consumed) or is already
+   Stopping/Stopped, or its kill is still queued in that terminate()'s work list.  The subtree
+   is covered transitively because terminate() also queues a take for every detached actor. *)
+Theorem C05_subtree_killed : forall ls c t,
+  let s := exec rule_fixed ls init in
+  doomed (s c) = Some t ->
+  (sg (s c) <> SigNone \/ 5 <= rank (st (s c))) \/ In (TKill c) (work s t).
+Proof. intros ls c t s. apply subtree_killed. exists ls; reflexivity. Qed.
+
+Theorem C05_subtree_killed_after_cleanup : forall ls c t,
+  let s := exec rule_fixed ls init in
+  doomed (s c) = Some t -> work s t = [] ->
+  sg (s c) <> SigNone \/ 5 <= rank (st (s c)).
+Proof. intros ls c t s. apply subtree_killed_after_cleanup. exists ls; reflexivity. Qed.
+
+(* the historical rule (kill only when status <= Upgrading) does NOT have this property:
+   the F2 scenario (a Draining child below a killed supervisor) is a counterexample *)
+Theorem C05_prefix_rule_refuted :
+  ~ (forall s c t, reachable rule_prefix s -> doomed (s c) = Some t -> work s t = [] ->
+       sg (s c) <> SigNone \/ 5 <= rank (st (s c))).
+Proof. exact prefix_rule_refutes_subtree_killed. Qed.
+
+(* (5) progress: in every quiescent state (no actor's own task has an enabled obligation) every
+   detached actor is Stopped -- or is an un-killed actor still inside its post_stop callback
+   (user code; it was already Stopping when its supervisor exited) *)
+Theorem C05_subtree_stops : forall ls c t,
+  let s := exec rule_fixed ls init in
+  (forall a, enabled_internal s a = false) ->
+  doomed (s c) = Some t ->
+  st (s c) = Stopped \/ (apc (s c) = PPostStop /\ sg (s c) = SigNone).
+Proof. intros ls c t s. apply subtree_stops. exists ls; reflexivity. Qed.
+
+Theorem C05_subtree_stops_all : forall ls c t,
+  let s := exec rule_fixed ls init in
+  (forall a, enabled_internal s a = false) -> (forall a, apc (s a) <> PPostStop) ->
+  doomed (s c) = Some t -> st (s c) = Stopped.
+Proof. intros ls c t s. apply subtree_stops_all. exists ls; reflexivity. Qed.
+
+(* (6) a link (explicit, or the one spawn_linked performs) racing the supervisor's exit: it is
+   refused (C05_no_adoption), or it succeeds and then -- for every continuation in which c is not
+   explicitly unlinked/relinked and does not exit by itself -- once p's set is closed c is among
+   the detached actors and is killed (or queued to be killed by the running terminate()) *)
+Theorem C05_race_outcome : forall ls0 c p s1 ls,
+  let s := exec rule_fixed ls0 init in
+  do_link s c p = (s1, true) ->
+  Forall (fun l => ~ moves c l) ls ->
+  let s2 := exec rule_fixed ls s1 in
+  children (s2 p) = None ->
+  exists t, doomed (s2 c) = Some t
+    /\ ((sg (s2 c) <> SigNone \/ 5 <= rank (st (s2 c))) \/ In (TKill c) (work s2 t)).
+Proof.
+  intros ls0 c p s1 ls s E F s2 H. apply (race_outcome s c p s1 ls); auto. exists ls0; reflexivity.
+Qed.
+
+Theorem C05_link_accepted_is_child : forall s c p s',
+  do_link s c p = (s', true) -> exists l, children (s' p) = Some l /\ In c l.
+Proof. exact link_accepted. Qed.
+
+(* the executable oracle's static part accepts every snapshot of every reachable state, and the
+   scenario driver used for the correspondence runs only produces reachable states *)
+Theorem C05_oracle_sound_static : forall r ls n, check_snap (snap n (exec r ls init)) = true.
+Proof. intros r ls n. apply (check_snap_sound r). exists ls; reflexivity. Qed.
+
+Theorem C05_driver_is_a_schedule : forall r ops, exists ls, core (drun r ops) = exec r ls init.
+Proof. intros r ops. exact (drun_reachable r ops). Qed.
+
+(* ---- statement pins ---- *)
+Check (C05_two_sided : forall r ls c p, let s := exec r ls init in
+  supervisor (s c) = Some p <-> (exists l, children (s p) = Some l /\ In c l)).
+Check (C05_stopped_is_bare : forall r ls a, let s := exec r ls init in
+  st (s a) = Stopped -> supervisor (s a) = None /\ children (s a) = None).
+Check (C05_subtree_killed : forall ls c t, let s := exec rule_fixed ls init in
+  doomed (s c) = Some t ->
+  (sg (s c) <> SigNone \/ 5 <= rank (st (s c))) \/ In (TKill c) (work s t)).
+Check (C05_subtree_stops : forall ls c t, let s := exec rule_fixed ls init in
+  (forall a, enabled_internal s a = false) -> doomed (s c) = Some t ->
+  st (s c) = Stopped \/ (apc (s c) = PPostStop /\ sg (s c) = SigNone)).
+
+(* ---- non-vacuity ---- *)
+(* depth-3 chain 0 <- 1 <- 2 <- 3, all running; the root is killed; everything is run to quiescence *)
+Definition ex_chain : list dop :=
+  [OSpawn 0 None false false false; OSettle 4; OSpawn 1 (Some 0) false false false; OSettle 4;
+   OSpawn 2 (Some 1) false false false; OSettle 4; OSpawn 3 (Some 2) false false true; OSettle 4;
+   OSend 2 MBlock; OSettle 4; ODrain 2; OSettle 4].
+Example ex_chain_before :
+  snap 4 (core (drun rule_fixed ex_chain))
+  = [(2, [1], None); (2, [2], Some 0); (4, [3], Some 1); (2, [], Some 2)].
+Proof. vm_compute. reflexivity. Qed.
+Example ex_chain_after_kill :
+  snap 4 (core (drun rule_fixed (ex_chain ++ [OKill 0; OSettle 4])))
+  = [(6, [], None); (6, [], None); (6, [], None); (6, [], None)].
+Proof. vm_compute. reflexivity. Qed.
+(* the detached actors carry the ghost mark; the hypotheses of C05_subtree_stops are satisfiable *)
+Example ex_chain_doomed :
+  let s := core (drun rule_fixed (ex_chain ++ [OKill 0; OSettle 4])) in
+  map (fun a => doomed (s a)) [1; 2; 3] = [Some 0; Some 0; Some 0]
+  /\ map (enabled_internal s) [0; 1; 2; 3] = [false; false; false; false].
+Proof. vm_compute. split; reflexivity. Qed.
+(* exits at an inner node by stop: the supervisor is parked in post_stop while a new child is
+   refused and an existing one stays linked; then everything below is taken *)
+Example ex_inner_stop :
+  map (fun x => fst x)
+      (model_run rule_fixed 5
+         (ex_chain ++ [OStop 3; OSettle 5; OSpawn 4 (Some 3) false false false; OSettle 5;
+                       OOpen 3 GPs; OSettle 5; OStop 1; OSettle 5]))
+  = [[(2, [], None); (0, [], None); (0, [], None); (0, [], None); (0, [], None)];
+     [(2, [1], None); (2, [], Some 0); (0, [], None); (0, [], None); (0, [], None)];
+     [(2, [1], None); (2, [2], Some 0); (2, [], Some 1); (0, [], None); (0, [], None)];
+     [(2, [1], None); (2, [2], Some 0); (2, [3], Some 1); (2, [], Some 2); (0, [], None)];
+     [(2, [1], None); (2, [2], Some 0); (2, [3], Some 1); (2, [], Some 2); (0, [], None)];
+     [(2, [1], None); (2, [2], Some 0); (4, [3], Some 1); (2, [], Some 2); (0, [], None)];
+     [(2, [1], None); (2, [2], Some 0); (4, [3], Some 1); (5, [], Some 2); (0, [], None)];
+     [(2, [1], None); (2, [2], Some 0); (4, [3], Some 1); (5, [], Some 2); (6, [], None)];
+     [(2, [1], None); (2, [2], Some 0); (4, [], Some 1); (6, [], None); (6, [], None)];
+     [(2, [], None); (6, [], None); (6, [], None); (6, [], None); (6, [], None)]].
+Proof. vm_compute. reflexivity. Qed.
+(* the race theorem's hypotheses are met: a link accepted, then the supervisor's exit *)
+Example ex_race :
+  let s := exec rule_fixed [LCreate 0; LStart 0; LRun 0; LCreate 1; LStart 1] init in
+  snd (do_link s 1 0) = true
+  /\ children (exec rule_fixed [LKill 0; LSignal 0; LTerm 0; LTerm 0] (fst (do_link s 1 0)) 0) = None
+  /\ doomed (exec rule_fixed [LKill 0; LSignal 0; LTerm 0; LTerm 0] (fst (do_link s 1 0)) 1) = Some 0.
+Proof. vm_compute. repeat split; reflexivity. Qed.
+(* the historical rule on the F2 schedule: supervisor Stopped, its terminate() complete, the
+   Draining child detached, not killed, nothing enabled *)
+Example ex_f2_prefix :
+  let s := exec rule_prefix f2_labels init in
+  st (s 0) = Stopped /\ work s 0 = [] /\ doomed (s 1) = Some 0 /\ st (s 1) = Draining
+  /\ sg (s 1) = SigNone /\ enabled_internal s 0 = false /\ enabled_internal s 1 = false.
+Proof. vm_compute. repeat split; reflexivity. Qed.
+Example ex_f2_oracle :
+  check_C05 (map fst (model_run rule_prefix 2
+     [OSpawn 0 None false false false; OSettle 2; OSpawn 1 (Some 0) false false false; OSettle 2;
+      OSend 1 MBlock; OSettle 2; ODrain 1; OSettle 2; OKill 0; OSettle 2])) = false
+  /\ check_C05 (map fst (model_run rule_fixed 2
+     [OSpawn 0 None false false false; OSettle 2; OSpawn 1 (Some 0) false false false; OSettle 2;
+      OSend 1 MBlock; OSettle 2; ODrain 1; OSettle 2; OKill 0; OSettle 2])) = true.
+Proof. vm_compute. split; reflexivity. Qed.
+
+Print Assumptions C05_two_sided.
+Print Assumptions C05_one_supervisor.
+Print Assumptions C05_stopped_is_bare.
+Print Assumptions C05_no_adoption.
+Print Assumptions C05_never_gains_children.
+Print Assumptions C05_never_gains_supervisor.
+Print Assumptions C05_status_monotone.
+Print Assumptions C05_closed_is_permanent.
+Print Assumptions C05_closed_after_cleanup.
+Print Assumptions C05_subtree_killed.
+Print Assumptions C05_subtree_killed_after_cleanup.
+Print Assumptions C05_prefix_rule_refuted.
+Print Assumptions C05_subtree_stops.
+Print Assumptions C05_subtree_stops_all.
+Print Assumptions C05_race_outcome.
+Print Assumptions C05_link_accepted_is_child.
+Print Assumptions C05_oracle_sound_static.
+Print Assumptions C05_driver_is_a_schedule.
